@@ -39,7 +39,14 @@ def main(argv):
     except RuntimeError as e:
         print("INTERNAL: %s" % e)
         return 2
+    try:
+        import controls
+        ctl = controls.verify()
+    except (controls.ControlFailure, RuntimeError) as e:
+        print("INTERNAL: positive control failed - a matcher no longer fires on its control: %s" % e)
+        return 2
     ctx = engine.Ctx(facts, th, a.tier, facts_rel)
+    ctx.stats["positive_controls"] = {k: (v if not isinstance(v, tuple) else list(v)) for k, v in ctl.items()}
     insts, reports = engine.run_property(ctx, prop)
     if a.replay:
         with open(a.replay) as fh:
